@@ -57,8 +57,13 @@ MarshalB(n, zero, nil) ==
                 \* HexHash: nil and the zero hash are both written as 0x00..00 (HL bytes) and read back as nil
                 hashtext |-> IF nil \/ (zero /\ n = HL) THEN "zero" ELSE "hex",
                 hashback |-> IF nil \/ (zero /\ n = HL) THEN "nil" ELSE IF n = HL THEN "same" ELSE "reject"]>>
+\* the JSON value null: the byte types read nil, the flag and the number types reject it
+JudgeNull == /\ mode = "idle" /\ mode' = "done" /\ UNCHANGED str
+             /\ hist' = <<[op |-> "null", hexbytes |-> TRUE, rawhex |-> TRUE, hexhash |-> TRUE, hexbool |-> FALSE,
+                            hexint |-> FALSE]>>
 Next == \/ \E c \in Chars : Type(c)
         \/ Judge
+        \/ JudgeNull
         \/ \E n \in ByteLens, zero \in BOOLEAN, nil \in BOOLEAN : MarshalB(n, zero, nil)
 Spec == Init /\ [][Next]_vars
 Complete == mode = "done"
